@@ -541,10 +541,12 @@ func runC20(c *Ctx) {
 	}
 
 	// ---------------------------------------------------------------- R5
-	c.rule("R5", "caller collects one result per worker, skips nil, watches ctx, fails only after all", 4)
+	c.rule("R5", "caller collects one result per worker, skips nil, watches ctx (and still takes an answer that is already queued when it ends), fails only after all", 5)
 	if callerSel == nil {
 		c.fail("caller-ctx", df.Pos(), "the caller receives results without a select on its context: the call can outlive it")
 	}
+	// D52: an answer that was queued before the caller's context ended is not lost to the coin toss between the two cases
+	checkCtxCasePollsResultIn(c, df)
 	if callerSel != nil {
 		hasCtx := false
 		for _, st := range callerSel.States {
